@@ -300,6 +300,25 @@ theorem acceptKey_filter (atts : List Entry) (k : Nat) (r : Option Bytes) :
     · simp only [List.filter_cons, hk, decide_true, if_true, acceptKey, ne_eq, not_true_eq_false, if_false, ih]
     · simp only [List.filter_cons, hk, decide_false, Bool.false_eq_true, if_false, acceptKey, ne_eq, not_false_eq_true, if_true, ih]
 
+/-! ## "the store always reopens" — whatever was stored
+
+The contract never looks into a value: a stored VAA is a byte string (`StoreSignedVAA` writes what `Marshal` produced, also when the
+decoder would reject it — an empty payload, a version other than 1).  Reopening therefore cannot depend on the contents. -/
+
+/-- After ANY history a reopen brings the store up, with the durable log (hence every lookup) as the crash left it. -/
+theorem reopen_always (evs : List Ev) :
+    (exec {} (evs ++ [.reopen])).up = true ∧ (exec {} (evs ++ [.reopen])).log = (exec {} evs).log ∧
+    ∀ k, lookup (exec {} (evs ++ [.reopen])).log k = lookup (exec {} evs).log k := by
+  have h : exec {} (evs ++ [.reopen]) = step (exec {} evs) .reopen := by
+    simp [exec, List.foldl_append]
+  rw [h]
+  exact ⟨rfl, rfl, fun _ => rfl⟩
+
+/-- An acknowledged value of any shape — here the empty byte string, which no decoder accepts — survives kill and reopen like any other. -/
+example : let evs := [Ev.put 7 [], .ack, .put 8 [1], .crash 3]
+    (exec {} (evs ++ [.reopen])).up = true ∧ lookup (exec {} (evs ++ [.reopen])).log 7 = some [] := by decide
+example : (exec {} ([Ev.put 7 [], .ack, .crash 1] ++ [.reopen])).up = true := (reopen_always _).1
+
 /-! ## non-vacuity: a put is acknowledged, a second one to the same key is in flight when the node is killed -/
 
 private def tr (cut : Nat) : List Ev := [.put 1 [10], .ack, .put 2 [20], .ack, .put 1 [11], .crash cut, .reopen]
